@@ -216,11 +216,12 @@ contract('mapproxy.layer:CacheMapLayer._image', props=['C16', 'C01'],
          raises={'BlankImage': True, 'MapBBOXError': True, 'SourceError': True, 'Exception': True},
          trace=[_tile_limit_before_load, _mosaic_georeference])
 
-cls('mapproxy.service.wms:WMSServer', fields=dict(max_output_pixels='opt[int]', layers='opaque', image_formats='opaque',
-                                                  srs='opaque', md='opaque', max_tile_age='opaque', root_layer='opaque',
-                                                  info_types='opaque', strict='bool', attribution='opaque',
-                                                  on_error='opaque', concurrent_layer_renderer='int', srs_extents='opaque',
-                                                  request_parser='opaque', tile_layers='opaque', inspire_md='opaque'))
+WMS_SERVER_FIELDS = dict(max_output_pixels='opt[int]', layers='opaque', image_formats='opaque',
+                         srs='opaque', md='opaque', max_tile_age='opaque', root_layer='opaque',
+                         info_types='opaque', strict='bool', attribution='opaque',
+                         on_error='opaque', concurrent_layer_renderer='int', srs_extents='opaque',
+                         request_parser='opaque', tile_layers='opaque', inspire_md='opaque', fi_transformers='opaque')
+cls('mapproxy.service.wms:WMSServer', fields=dict(WMS_SERVER_FIELDS))
 
 
 def _pixel_limit_first(ex, st, post, result):
